@@ -31,6 +31,7 @@ CONSTANTS Starts,        \* start instances (one caller process each)
           JunkBudget,    \* garbage / unknown-id datagrams
           CloseConn,     \* FALSE = WithNoConnClose
           HasFallback,   \* WithHandler set
+          DeadlineTicks, \* TRUE: the clock jumps straight past the next agent deadline (deep retransmission chains)
           OneAtATime,    \* TRUE: a Collect / Close that would emit events for several ids at once is not taken
                          \* (the real agent iterates a Go map: their order cannot be replayed)
           SafePool,      \* TRUE: a retransmission write does not fail while another goroutine holds the same pooled
@@ -392,8 +393,13 @@ CloseWait ==
 
 ---------------------------------------------------------------------------
 (* environment *)
+NextDeadline == LET D == { at[i] : i \in { j \in Ids : at[j] # None } } IN
+                IF D = {} THEN clock + 1 ELSE (CHOOSE d \in D : \A x \in D : d <= x) + 1
+
 Tick ==
-  /\ clock < MaxClock /\ clock' = clock + 1
+  /\ clock < MaxClock
+  /\ DeadlineTicks => (\E j \in Ids : at[j] # None) /\ NextDeadline > clock
+  /\ clock' = IF DeadlineTicks /\ NextDeadline > clock /\ NextDeadline <= MaxClock THEN NextDeadline ELSE clock + 1
   /\ UNCHANGED << closed, closeChan, connCloses, ct, at, aclosed, alock, obj, pc, loc, inbox, fails, resps, junk,
                   wsucc, wlog, hcalls, hlast, ret, fbcalls, ended >>
 
